@@ -75,7 +75,7 @@ CLAIMED = {
              "C01_exact_delivery). Tie: unit_framing correspondence with send-focused generation (sizes 0,1,max,max+1,"
              "far larger; refusal before acceptance, between acceptance and flush, after k bytes) and a wire monitor.",
         note="The blocking wrapper in xcm.c (poll() interrupted by a signal between acceptance and flush, defect "
-             "candidate F-03a) is not yet inside the model or this check; ux/uxf: C03_ux_failed_send_no_trace + unit_ux; 'exactly once' is the "
+             "F-03a, found and fixed here) is covered by C03_blocking_send_no_false_failure / _accepted_once on the Api model, tied by unit_api; ux/uxf: C03_ux_failed_send_no_trace + unit_ux; 'exactly once' is the "
              "safety half (at most once, in order) — eventual delivery is C04. Lower-layer failure is assumed terminal.",
         technique="Lean 4 proofs (state equalities, corollary of the delivery theorem) + differential correspondence",
         ref="DESIGN.md §5 C03"),
@@ -101,7 +101,8 @@ CLAIMED = {
              "plus a wire monitor.",
         note="btls is NOT claimed: the property's last clause is expected to be false for it (OpenSSL pending-record "
              "retry, defect candidate F-02a, not yet re-established by a check in this round) and the Btls model is "
-             "not built yet. Blocking-mode bytestream_bsend (xcm.c) is not modelled. K-stream is an assumption.",
+             "not built yet. Blocking mode: C02_bsend_accounting on the Api model of xcm.c (bytestream_bsend) tied by unit_api. "
+             "K-stream is an assumption.",
         technique="Lean 4 invariant proof over unbounded histories + differential correspondence (btcp)",
         ref="DESIGN.md §5 C02"),
     "C06": dict(
@@ -157,6 +158,25 @@ CLAIMED = {
              "(ENOENT/EACCES/EINVAL before the setter) is C10's treeSet theorem. Kernel honouring setsockopt is assumed.",
         technique="Lean 4 invariant proof over unbounded set histories (TCP options) + differential correspondence (unit and live sockets) + runtime monitors",
         ref="DESIGN.md §5 C11"),
+    "C05": dict(
+        text="Lean 4 proofs: (i) on a model of the xcm.c wrappers (socket_wait, socket_finish, msg_bsend, bytestream_bsend, "
+             "xcm_send/receive/finish/await/set_blocking) no call on a socket in non-blocking mode produces a wait, whatever the "
+             "transport answers, and EAGAIN is reported instead (C05_nonblocking_no_wait, C05_eagain_is_reported); (ii) over tables "
+             "REGENERATED from the source on every run: every poll/ppoll/select/epoll_wait/sleep site of the library either has "
+             "timeout 0 or lives in socket_wait / xcm_dns_resolve_sync (C05_wait_sites), every descriptor is created with "
+             "SOCK_NONBLOCK (C05_sock_sites_nonblocking), and every call of a blocking helper is guarded by is_blocking except "
+             "the two xcm_dns_resolve_sync calls in xcm_tp_btcp.c (C05_helper_calls_partial; the full statement is refuted by "
+             "C05_helper_calls_counterexample = known finding F-05a). Tie: unit_api (real xcm.c over scripted transport/poll, "
+             "call traces compared with the model) and sys_nowait: real sockets of all seven transports in the phases idle, "
+             "back-pressure, peer closed, server idle, TLS handshake against a mute peer, SYN_SENT against a full accept queue, "
+             "resolving against a mute resolver, with link-time wrappers reporting any wait with a non-zero timeout, any sleep, "
+             "and any I/O on a blocking descriptor during an API call.",
+        note="proof-partial in one respect: the guard analysis of call sites is a syntactic translator (extract/ext_sites.py); "
+             "what the transports do below xcm.c is covered by the table of wait sites plus the wrapped runs, not by a model of "
+             "every transport function. Known finding F-05a (named xcm.local_addr resolved synchronously) is reported as "
+             "KNOWN-FINDING. OpenSSL/c-ares internals are assumed not to sleep on non-blocking descriptors.",
+        technique="Lean 4 proofs (wrapper model; decide over site tables regenerated from source) + differential correspondence + wrapped live-socket runs",
+        ref="DESIGN.md §5 C05"),
 }
 
 PENDING_REASON = "not yet built in this round: no check is claimed for it (the design in DESIGN.md §5 stands; " \
